@@ -495,10 +495,20 @@ func cancelWorker(req N) (resp N) {
 		_, err = risor.Eval(ctx, src, risor.WithOS(vos), risor.WithConcurrency(), risor.WithGlobal("tick", tick))
 	}
 	ret := time.Now()
+	afterReturn, _ := req["after_return"].(bool)
+	if afterReturn {
+		// the main code has finished: goroutines it started are still running under ctx; cancel it now
+		time.Sleep(30 * time.Millisecond)
+		cancel()
+	}
 	if cancelAt == 0 {
 		cancelledAt.Store(t0.Add(deadline).UnixNano())
 	}
 	out := N{"k": "ok", "returned": true, "elapsed_ms": ret.Sub(t0).Milliseconds()}
+	if afterReturn {
+		out["after_return"] = true
+		out["cancelled_after"] = cancelledAt.Load() == 0
+	}
 	if ca := cancelledAt.Load(); ca != 0 {
 		out["after_cancel_ms"] = (ret.UnixNano() - ca) / 1e6
 		out["cancelled"] = true
